@@ -123,6 +123,8 @@ def _multi(draw, max_rows):
     for _ in range(draw(st.integers(1, 2)) if op == "cbind" else 1):
         k = draw(st.integers(1, 3))
         on = n if (n == 0 or draw(st.integers(0, 3))) else 1
+        if n >= 1 and draw(st.integers(0, 7)) == 0:
+            on = n + draw(st.integers(1, 3)) if (n != 1 or draw(st.booleans())) else draw(st.integers(2, 4))
         cols = []
         used = set()
         for j in range(k):
@@ -230,6 +232,25 @@ def check(plan, ctx):
         others = [_mk(o) for o in plan["others"]]
         osrc = [build.table(o) for o in others]
         obefore = [build.snap_frame(o) for o in others]
+        seen_names = set(names)
+        mismatch = False
+        for o in plan["others"]:
+            new_names = [c["name"] for c in o["cols"] if (c["name"] not in seen_names or op == "update")]
+            seen_names |= {c["name"] for c in o["cols"]}
+            if o["n"] not in (n, 1) and new_names:          # only a frame that contributes a column is examined
+                mismatch = True
+        if mismatch:
+            # "any other length mismatch is rejected": the call must raise and leave every operand untouched
+            try:
+                out = data.cbind(*others) if op == "cbind" else data.update(others[0])
+            except Exception:
+                if build.snap_frame(data) != before or [build.snap_frame(o) for o in others] != obefore:
+                    raise Violation(f"{op} rejected operands of mismatching length but changed one of them")
+                ctx.cls("mismatching_length_rejected")
+                return
+            lens = {k: len(v) for k, v in dict.items(out)}
+            raise Violation(f"{op} accepted an operand whose row count matches neither the receiver's nor 1",
+                            receiver_rows=n, operand_rows=[o["n"] for o in plan["others"]], result_lengths=lens)
         if op == "cbind":
             out = ctx.call("cbind", data.cbind, *others)
         else:
